@@ -16,9 +16,9 @@
      pkg/visitors/save.go        Save.Visit = Assemble, then write
      pkg/visitors/cli.go, pkg/utk/utk.go   ParseCLI (all visitors are created, files to insert are
                                  parsed, BEFORE the image is parsed), uefi.Parse, ExecuteCLI
-     pkg/visitors/assemble.go    FirmwareVolume case WITH fixes/C03-assemble-empty-volume.diff: the
-                                 switch [fx] selects the pinned code ([false], then [asm_v] is
-                                 Ffs.asm, lemma asm_v_false) or the repaired code ([true]).
+     pkg/visitors/assemble.go    the shared model's (Ffs.asm / asm_vol / asm_bios, which carry the
+                                 empty-volume repair); the code before the repair survives as
+                                 [asm_vol_pinned] / [asm_bios_pinned] for the ..._refuted theorems.
 
    Pointer identity.  Go compares *uefi.File pointers (f.Files[i] == m).  Every file node of a parsed
    tree is a distinct object and Find puts a file into Matches exactly when [fmatch] holds of it (a
@@ -378,7 +378,12 @@ Definition abs_files (files : list node) : list (bytes * Z * Z * bytes) :=
 Definition abs_fv (n : node) : list (bytes * Z * Z * bytes) :=
   match n with NVol _ _ files => abs_files files | _ => [] end.
 
-(* ---------- assemble.go, volume case, pinned ([fx] = false) or repaired ([fx] = true) ---------- *)
+(* ---------- assemble.go: the shared model's (Ffs.asm, Ffs.asm_vol, Ffs.asm_bios) ---------- *)
+
+(* the early return of the volume case: the buffer already holds the volume (the condition of
+   Ffs.asm_vol's first test) *)
+Definition vol_verbatim (h : volhdr) (files : list node) : bool :=
+  (match files with [] => true | _ => false end) && negb (supported_fv (v_guid h)).
 
 Section EditModel.
 
@@ -388,108 +393,41 @@ Variable u2s : bytes -> bytes.
 Variable s2u : bytes -> bytes.
 Variable nvar : bytes -> option bytes.
 
-(* the early return: the buffer already holds the volume *)
-Definition vol_verbatim (fx : bool) (h : volhdr) (files : list node) : bool :=
+(* The code before fixes/C03-assemble-empty-volume.diff (DESIGN section 6 #20), kept only for the
+   ..._refuted theorems: Assemble returned early for EVERY volume with an empty file list, so the
+   volume kept its stale buffer.  [asm_vol_pinned] is that volume case; [asm_bios_pinned] applies it
+   to the region's own volumes (all other nodes go through Ffs.asm). *)
+Definition asm_vol_pinned (pol : Z) (ffs3 : bool) (h : volhdr) (buf : bytes) (files : list node)
+  : outcome (volhdr * bytes) :=
   match files with
-  | [] => negb (fx && supported_fv (v_guid h))
-  | _ => false
+  | [] => Ok (h, buf)
+  | _ => asm_vol pol ffs3 h buf files
   end.
 
-Definition asm_vol_v (fx : bool) (pol : Z) (ffs3 : bool) (h : volhdr) (buf : bytes) (files : list node)
-  : outcome (volhdr * bytes) :=
-  if vol_verbatim fx h files then Ok (h, buf) else
-    if v_length h <? zlen buf then Err E_BUFBIG else
-    match v_blocks h with [] => Err E_BLOCK0 | _ =>
-    if v_dataoff h <? v_hdrlen h then Err E_BUFBIG else
-    if fx && (zlen buf <? v_dataoff h) then Err E_BUFBIG else
-    do hdr <- of_opt 202 (slice 0 (v_dataoff h) buf);
-    do b1 <- place_files pol (if v_resizable h then None else Some (v_length h)) hdr (v_dataoff h) files;
-    let newlen := zlen b1 in
-    if (v_length h <? newlen) && negb (v_resizable h) then Err E_NOSPACE else
-    do lb <-
-      (if v_length h <? newlen then
-         match v_blocks h with
-         | [] => Panic 203
-         | (c, s) :: rest =>
-           if s =? 0 then Err E_BLOCK0 else
-           let l := align_go newlen s in
-           Ok (l, ((l / s) mod U32, s) :: rest)
-         end
-       else Ok (v_length h, v_blocks h));
-    let '(len, blocks) := lb in
-    let b2 := if newlen <? len then b1 ++ zrepeat pol (len - newlen) else b1 in
-    if zlen b2 <? 40 then Panic 204 else
-    let b3 := splice 32 (le_enc 8 len) b2 in
-    let g := if ffs3 && bytes_eqb (v_guid h) FFS2 then FFS3 else v_guid h in
-    let b4 := if ffs3 && bytes_eqb (v_guid h) FFS2 then splice 16 FFS3 b3 else b3 in
-    match blocks with
-    | [] => Panic 205
-    | (c, s) :: _ =>
-      if zlen b4 <? 60 then Panic 206 else
-      let b5 := splice 56 (le_enc 4 c) b4 in
-      let b6 := splice 50 [0; 0] b5 in
-      match slice 0 (v_hdrlen h) b6 with
-      | None => Panic 207
-      | Some hb =>
-        if negb (Z.even (v_hdrlen h)) then Err E_ODD else
-        let sum := (0 - sum16 hb) mod 65536 in
-        let b7 := splice 50 (le_enc 2 sum) b6 in
-        Ok (mkVol (v_zero h) g len (v_sig h) (v_attrs h) (v_hdrlen h) (v_cksum h) (v_exthdroff h)
-                  (v_reserved h) (v_rev h) blocks (v_extname h) (v_extsize h) (v_dataoff h)
-                  (v_fvoffset h) (v_resizable h) ((len - align8 newlen) mod U64), b7)
-      end
-    end
-    end.
-
-(* Assemble.Visit: Ffs.asm with the volume case above (Ffs.vol_asm / Ffs.asm with [asm_vol_v]) *)
-Section AsmV.
-Variable fx : bool.
-
-Definition vol_asm_v (h : volhdr) (buf : bytes) (kids' : list node) (st1 : ast) : outcome (node * ast) :=
-  let '(pol, ffs3) := st1 in
-  do hb <- asm_vol_v fx pol ffs3 h buf kids';
-  let '(h', nb) := hb in
-  Ok (NVol h' nb kids', (pol, if vol_verbatim fx h kids' then ffs3 else false)).
-
-Fixpoint asm_v (n : node) (st : ast) {struct n} : outcome (node * ast) :=
-  let asm_list :=
-    fix asm_list (l : list node) (st : ast) : outcome (list node * ast) :=
-      match l with
-      | [] => Ok ([], st)
-      | x :: r =>
-        do xs <- asm_v x st; let '(x', st1) := xs in
-        do rs <- asm_list r st1; let '(r', st2) := rs in
-        Ok (x' :: r', st2)
-      end in
-  match n with
-  | NPad off b => Ok (NPad off b, st)
-  | NSec h buf kids =>
-    do ks <- asm_list kids st; let '(kids', st1) := ks in sec_asm enc s2u h buf kids' st1
-  | NFile h buf kids =>
-    do ks <- asm_list kids st; let '(kids', st1) := ks in file_asm h buf kids' st1
-  | NVol h buf kids =>
+Definition asm_elem_pinned (x : node) (st : ast) : outcome (node * ast) :=
+  match x with
+  | NVol h buf [] =>
     match set_polarity (fst st) (fv_polarity (v_attrs h)) with
     | None => Err E_POLARITY
     | Some pol0 =>
-      do ks <- asm_list kids (pol0, false); let '(kids', st1) := ks in
-      do r <- vol_asm_v h buf kids' st1; let '(n', st2) := r in Ok (n', (fst st2, snd st))
+      do hb <- asm_vol_pinned pol0 false h buf [];
+      let '(h', nb) := hb in Ok (NVol h' nb [], (pol0, snd st))
     end
+  | _ => asm enc s2u x st
   end.
 
-Fixpoint asm_elems_v (l : list node) (st : ast) : outcome (list node * ast) :=
+Fixpoint asm_elems_pinned (l : list node) (st : ast) : outcome (list node * ast) :=
   match l with
   | [] => Ok ([], st)
   | x :: r =>
-    do xs <- asm_v x st; let '(x', st1) := xs in
-    do rs <- asm_elems_v r st1; let '(r', st2) := rs in
+    do xs <- asm_elem_pinned x st; let '(x', st1) := xs in
+    do rs <- asm_elems_pinned r st1; let '(r', st2) := rs in
     Ok (x' :: r', st2)
   end.
 
-End AsmV.
-
-Definition asm_bios_v (fx : bool) (elems : list node) (length : Z) (st : ast)
+Definition asm_bios_pinned (elems : list node) (length : Z) (st : ast)
   : outcome (list node * bytes * ast) :=
-  do es <- asm_elems_v fx elems st; let '(elems', st1) := es in
+  do es <- asm_elems_pinned elems st; let '(elems', st1) := es in
   match first_fv elems' with
   | None => Err E_NOFV
   | Some vh =>
@@ -556,13 +494,18 @@ Fixpoint run_ops (d : nat) (pol : Z) (cs : list cop) (elems : list node) : outco
   | c :: r => do e1 <- run_op d pol c elems; run_ops d pol r e1
   end.
 
-(* utk <image> <ops...> save <out>: the bytes written, or the error that prevents writing *)
-Definition edit_and_save (fx : bool) (d : nat) (ops : list op) (img : bytes) : outcome bytes :=
+(* utk <image> <ops...> save <out>: the bytes written, or the error that prevents writing;
+   [pinned] selects the code before the empty-volume repair (for the ..._refuted theorem only) *)
+Definition edit_and_save_gen (pinned : bool) (d : nat) (ops : list op) (img : bytes) : outcome bytes :=
   do cp <- parse_cli d 240 ops; let '(cops, pol0) := cp in
   do ep <- parse_bios dec u2s nvar d (Z.to_nat (zlen img) + 1) pol0 img 0;
   let '(elems, pol) := ep in
   do elems' <- run_ops d pol cops elems;
-  do r <- asm_bios_v fx elems' (zlen img) (pol, false);
+  do r <- (if pinned then asm_bios_pinned elems' (zlen img) (pol, false)
+           else asm_bios enc s2u elems' (zlen img) (pol, false));
   let '(_, b, _) := r in Ok b.
+
+Definition edit_and_save (d : nat) (ops : list op) (img : bytes) : outcome bytes :=
+  edit_and_save_gen false d ops img.
 
 End EditModel.
